@@ -486,7 +486,7 @@ CliStreamStep(ev) ==
       nine == \A k \in 1..n : lis[k].isf => lis[k].df \in NineDF
       m    == Len(idx)
       usable == ev.code = 0 /\ nine /\ Len(ev.snaps) = m
-      Empty == [header |-> <<>>, sep |-> <<>>, rows |-> <<>>]
+      Empty == [header |-> <<>>, sep |-> <<>>, rows |-> <<>>, counts |-> <<>>]
       \* position slots of aircraft a after the first j frames that reached the decoder; the whole run takes far less than the
       \* 10 s pairing window (checked: ev.wall_ms), so all receive times are taken as equal
       RECURSIVE SlotsUpTo(_, _)
@@ -517,7 +517,11 @@ CliStreamStep(ev) ==
                           la # <<>> /\ lo # <<>> /\ Abs(la[1] - vd.lat) <= 10 /\ Abs(lo[1] - vd.lon) <= 10
                      ELSE lat1 = lat0 /\ lon1 = lon0
             others == \A b \in SnapAddrs(s0) \ {a} : SnapRow(s1, b) # <<>> /\ DropAges(SnapRow(s1, b)[1]) = DropAges(SnapRow(s0, b)[1])
-        IN  /\ Chk("C11", "cli.present", r1 # <<>>, ev, tg)
+            cntk == IF s1.counts = <<>> THEN <<>> ELSE ParseCounts(s1.counts[1])
+            dfsk == [j \in 1..k |-> lis[idx[j]].df]
+        IN  /\ Chk("C16", "cli.stream.counters", ev.args.c => cntk = ExpectedCounts(dfsk), ev, tg)
+            /\ Chk("C16", "cli.stream.table", SnapAddrs(s1) = {lis[idx[j]].a : j \in 1..k}, ev, tg)
+            /\ Chk("C11", "cli.present", r1 # <<>>, ev, tg)
             /\ Chk("C11", "cli.others", others /\ SnapAddrs(s1) \subseteq SnapAddrs(s0) \cup {a}, ev, tg)
             /\ (r1 = <<>> \/ Free(f) \/ ~fit \/
                  (/\ Chk("C11", "cli.alt", AdmAlt(pre, post.alt, f, ctx), ev, tg)
@@ -531,6 +535,7 @@ CliStreamStep(ev) ==
       /\ Chk("DRIFT", "refresh.per.frame", (ev.code = 0 /\ nine) => Len(ev.snaps) = m, ev, "stream")
       /\ (IF usable THEN \A k \in 1..m : StepOK(k) ELSE TRUE)
       /\ Mark("C11", usable /\ m > 0, ev)
+      /\ Mark("C16", usable /\ m > 0 /\ ev.args.f # <<>>, ev)
 
 (***************************** -D downlink log ****************************)
 \* ev: [lines, args.f, log : logged lines as code points, code]
